@@ -406,6 +406,11 @@ func sbRunCli(d *sbDir, mode, script string) sbResult {
 	d.reset()
 	r := sbResult{script: script}
 	args := []string{"-sandbox", "-quiet", "-no-liner"}
+	// mode may carry further command line flags: repl:-demo:-i
+	if parts := strings.Split(mode, ":"); len(parts) > 1 {
+		mode = parts[0]
+		args = append(args, parts[1:]...)
+	}
 	var stdin io.Reader = strings.NewReader("")
 	end := "(println (+ 77310000 2))"
 	switch mode {
@@ -869,10 +874,23 @@ func sbGen(g *Gen) {
 				}
 			}
 		}
+		// other command line flags next to -sandbox must not open anything
+		if c == "cli" {
+			for _, fl := range []string{"-demo", "-i", "-countcalls", "-exitonfail", "-trace"} {
+				for _, sc := range []string{`(system "touch $D/cmd-ran.txt")`, `(sys "touch $D/cmd-ran.txt")`, `(include "$D/secret.txt")`,
+					`(slurpf "$D/secret.txt")`, `(getenv "` + sbEnvName + `")`, `(exit 0)`} {
+					if fl == "-trace" && !g.Thorough() {
+						continue
+					}
+					g.Emit("script cli repl:%s %s", fl, bytesToCodes([]byte(sc)))
+					g.Count("cli with " + fl)
+				}
+			}
+		}
 		// combined programs
 		nprog := 120
 		if g.Thorough() {
-			nprog = 1500
+			nprog = 4000
 		}
 		if c == "cli" {
 			nprog /= 8
